@@ -12,7 +12,7 @@ LEVEL = 'exploration'
 RULE = ('cases = seeded random sequences of 1..60 frames over a protocol-aware alphabet (TP.CM/TP.DT, on FD FD.TP.CM/FD.TP.DT/Multi-PG and the '
         'classic TP identifiers; to the stack\'s address, a foreign address and 255; from an ordinary peer, a third node, the stack\'s own address, 254 '
         'and 255; every defined control byte plus random ones; sessions 0..15; size/packet/sequence/window fields from boundary sets and random; data '
-        'lengths 0..8 (0..64 FD); gaps 0..3.1 s) put on the bus by a scripted node (seen by two real stacks) or fed straight into ecu.notify / the '
+        'lengths 0..8 (0..64 FD); gaps 0..3.1 s; in 12 % of the longer sequences a gap-0 burst of 20..48 session-opening frames from as many sources fed in at one instant) put on the bus by a scripted node (seen by two real stacks) or fed straight into ecu.notify / the '
         'listener of the stack under test, interleaved with the stack\'s own send_pgn calls; in half of the cases delivery latency is zero with probability 0.5/1 (a frame is handled while the sender is still inside its send call) and the scripted node additionally answers transport frames of the real stacks at once with an abort / CTS / end-of-message / data frame aimed at the same session; oracle after the sequence: job threads alive, never '
         'span, parked with a positive time-out; after 3.7 s of quiet (hold time + longest time-out) all session tables empty / FD pools full; a probe timer fires on time; one '
         'well-formed transfer in each direction is delivered intact; non-trivial = >=1 frame reached a transport handler of a stack; distinct = '
@@ -174,7 +174,33 @@ def run_case(case):
             except Exception:
                 pass          # counted by StackNode.notify_exc; allowed by the property
 
+    burst_left = 0
+    burst_how = None
+    if rng.random() < 0.12 and L >= 25:
+        burst_at = rng.randrange(0, L - 20)
+    else:
+        burst_at = None
     for i in range(L):
+        if burst_at is not None and i == burst_at:
+            # a gap-0 burst of well-formed session-opening frames from many sources, fed in at one instant (no chance for the job thread to run in
+            # between): announcements / requests-to-send that each create a session and ask the job thread to wake up
+            burst_left = min(rng.randint(20, 48), L - i)
+            burst_how = rng.choice(['listener', 'notify'])
+        if burst_left > 0:
+            burst_left -= 1
+            k = burst_left
+            sa_b = 0x40 + k
+            if rng.random() < 0.6:
+                cid = C.make_id(6, 0, C.PF_FD_TP_CM if fd else C.PF_TP_CM, 255, sa_b)
+                dat = C.fdcm_bam(k % 4, 130, 0xFEF0) if fd else C.tpcm_bam(20, 0xFEF0)
+                label = 'burst_bam'
+            else:
+                cid = C.make_id(6, 0, C.PF_FD_TP_CM if fd else C.PF_TP_CM, SELF, sa_b)
+                dat = C.fdcm_rts(k % 8, 130, 255, 0xD000) if fd else C.tpcm_rts(20, 255, 0xD000)
+                label = 'burst_rts'
+            labels[label] += 1
+            sim.at(t, feed, cid, dat, burst_how)
+            continue
         if rng.random() < 0.5:
             t += rng.choice([0, 0, 0.001, 0.05, 0.3, 0.8, 1.3, 3.1])
         can_id, data, label = gen_frame(rng, fd)
